@@ -34,6 +34,9 @@ PREDEF_FORMATS = ["GL", "GQ", "GT", "HP", "PQ", "PS", "HS", "AD"]
 BASES = "ACGT"
 
 
+# HP values that are not in whatshap's own `block-haplotype` form
+FOREIGN_HP = ["mat,pat", "1,2", "2,1", "h2", "7-1", "a-b,c-d", "3-1,3-2,3-3", "P,M"]
+
 # names in no particular order: sorting against the file order, sharing prefixes, looking like tags or roles
 SAMPLE_NAMES = ["S1", "S2", "S3", "S10", "NA12878", "NA12", "child", "mother", "father", "B", "A", "sample_2", "HP", "PS", "s1"]
 CHROM_NAMES = ["chrA", "chrB", "chrC", "chr1", "chr11", "chr2", "chr10", "X", "2", "1", "contig_1", "chrUn_x"]
@@ -203,21 +206,23 @@ def gen_vcf(rng, nsamples=None, nchrom=None, nrec=None, allow_odd=True, allow_un
                         key = (s, c)
                         if key not in ps_value or rng.random() < 0.3:
                             ps_value[key] = p
-                        vals.append(str(ps_value[key]))
+                        vals.append(str(ps_value[key]) + (".5" if ps_type == "Float" and "PS" not in undeclared_fmt and rng.random() < 0.5 else ""))
                     elif k == "HP":
                         key = (s, c)
                         if key not in ps_value or rng.random() < 0.3:
                             ps_value[key] = p
                         b = ps_value[key]
                         r = rng.random()
-                        if r < 0.45:
+                        if r < 0.38:
                             vals.append(f"{b}-1,{b}-2")
-                        elif r < 0.9:
+                        elif r < 0.76:
                             vals.append(f"{b}-2,{b}-1")
+                        elif r < 0.9:
+                            vals.append(rng.choice(FOREIGN_HP))       # written by another tool
                         else:
                             vals.append(".")
                     elif k == "PQ":
-                        vals.append(rng.choice(["42", "3.5", "20"]))
+                        vals.append(rng.choice(["42", "3.5", "20", "0.125", "99"]))
                 while len(vals) > 1 and vals[-1] == "." and rng.random() < 0.5:
                     vals.pop()          # trailing missing fields may be dropped
                 calls.append(":".join(vals))
